@@ -154,6 +154,8 @@ where
             // no result yet, we are a waiter task.
             self.num_waiters.fetch_add(1, Ordering::SeqCst);
             debug!("Adding to Call's Notify");
+            #[cfg(xet_verif)]
+            crate::verif_hooks::point("sf.window.before_register");
 
             // Note that the `notified()` needs to be performed outside of the async
             // block since we need to register our waiting within this read-lock
